@@ -18,12 +18,18 @@ class InfraError(Exception):
 
 def lake_build(timeout=3000):
     """(ok, seconds, output).  A no-op build takes ~0.3 s."""
+    import fcntl
     t0 = time.time()
-    try:
-        p = subprocess.run(['lake', 'build'], cwd=LEAN_DIR, stdout=subprocess.PIPE,
-                           stderr=subprocess.STDOUT, text=True, timeout=timeout)
-    except subprocess.TimeoutExpired as e:
-        raise InfraError(f'lake build timed out: {e}')
+    # concurrent checks must not run `lake build` in the same directory at the same time
+    with open(os.path.join(LEAN_DIR, '.build.lock'), 'w') as lock:
+        fcntl.flock(lock, fcntl.LOCK_EX)
+        try:
+            p = subprocess.run(['lake', 'build'], cwd=LEAN_DIR, stdout=subprocess.PIPE,
+                               stderr=subprocess.STDOUT, text=True, timeout=timeout)
+        except subprocess.TimeoutExpired as e:
+            raise InfraError(f'lake build timed out: {e}')
+        finally:
+            fcntl.flock(lock, fcntl.LOCK_UN)
     return p.returncode == 0, time.time() - t0, p.stdout
 
 
